@@ -93,10 +93,8 @@ fn case(t: &mut Tape, info: &mut CaseInfo) -> Result<(), String> {
             if in_place != map {
                 return Err("failed convert_mut modified the map".into());
             }
-            let expected_err = if src_is_convert { "AlreadyConverted" } else { "Convert" };
-            if !a.starts_with(expected_err) {
-                return Err(format!("unexpected error variant {a}, expected {expected_err}"));
-            }
+            // (which of the two ConvertError variants is reported is not fixed by the property, only that the
+            // three entry points report the same one)
         }
         _ => {
             return Err(format!(
@@ -328,7 +326,7 @@ pub fn property() -> Property {
         id: "C07",
         subchecks: vec![SubCheck {
             name: "conversion-and-dispatch",
-            rule: "G-MAP of all four native modes (1/8 of osu maps pre-converted, 1/12 of the others with the public is_convert flag set by hand) x uniform target mode x mods incl. key mods/Random/HO/IN/MR in all representations x G-DIFF x score spec. Oracle: convert / convert_ref / convert_mut give == maps or the same error variant (failed convert_mut leaves the map unchanged); own mode => identity and Cow::Borrowed; Ok iff target==mode or un-converted osu; result has mode==target and is_convert; calculate_for_mode, strains_for_mode, GradualDifficulty::new_with_mode / Beatmap::gradual_difficulty / Difficulty::gradual_difficulty / gradual_difficulty_for_mode::<M> (drained), GradualPerformance::new_with_mode (stepped with nth) and Beatmap::gradual_performance / Difficulty::gradual_performance / gradual_performance_for_mode::<M> (mode-specific calculator; walked with next and last, len() compared), Performance::try_mode / mode_or_ignore / <Mode>Performance::new(&src) all same-value-equal to the same call on the explicitly converted map; mods changed after the mode switch act on the map converted with the earlier mods (borrowed and owned maps); on impossible conversions every entry point refuses and try_mode returns the unchanged calculator. Non-trivial: osu source with >=3 objects incl. a slider and target != osu, or an error path from a non-osu/converted source.",
+            rule: "G-MAP of all four native modes (1/8 of osu maps pre-converted, 1/12 of the others with the public is_convert flag set by hand) x uniform target mode x mods incl. key mods/Random/HO/IN/MR in all representations x G-DIFF x score spec. Oracle: convert / convert_ref / convert_mut give == maps or the same error (same variant and fields, whichever it is) (failed convert_mut leaves the map unchanged); own mode => identity and Cow::Borrowed; Ok iff target==mode or un-converted osu; result has mode==target and is_convert; calculate_for_mode, strains_for_mode, GradualDifficulty::new_with_mode / Beatmap::gradual_difficulty / Difficulty::gradual_difficulty / gradual_difficulty_for_mode::<M> (drained), GradualPerformance::new_with_mode (stepped with nth) and Beatmap::gradual_performance / Difficulty::gradual_performance / gradual_performance_for_mode::<M> (mode-specific calculator; walked with next and last, len() compared), Performance::try_mode / mode_or_ignore / <Mode>Performance::new(&src) all same-value-equal to the same call on the explicitly converted map; mods changed after the mode switch act on the map converted with the earlier mods (borrowed and owned maps); on impossible conversions every entry point refuses and try_mode returns the unchanged calculator. Non-trivial: osu source with >=3 objects incl. a slider and target != osu, or an error path from a non-osu/converted source.",
             quick: 40_000,
             thorough: 150_000,
             tape_len: 1500,
